@@ -114,6 +114,48 @@ fn main() {
             s.require("hash-backed", 1000);
             s.require("depth>=2", 1000);
             s.gen("runtime-trees", s.n(150_000, 3_000_000), case, check_case);
+
+            // ---- generated programs of macro call sites (engine E5)
+            s.require("renamed-reorders-sort", 8);
+            let runner = c02::prog::Runner::new();
+            let args: Vec<String> = std::env::args().collect();
+            let selected = match args.iter().position(|a| a == "--only") {
+                Some(i) => args.get(i + 1).map(|o| "macro-sites".contains(o.as_str())).unwrap_or(true),
+                None => true,
+            };
+            let mut sites: Vec<c02::prog::Site> = Vec::new();
+            if !s.is_replay() && selected {
+                let (programs, per) = if s.quick() { (1usize, s.n(250, 250) as usize) } else { (8usize, s.n(400, 400) as usize) };
+                sites = s.sample("macro-sites", c02::prog::site(), programs * per);
+                let mut shrunk: Vec<(usize, c02::prog::Site)> = Vec::new();
+                for (b, chunk) in sites.chunks(per).enumerate() {
+                    match runner.run_program(chunk) {
+                        Ok(res) => {
+                            // delta-debug the first site of this program that fails with an unlisted signature,
+                            // so that the replay file is the reduced site
+                            for (i, (site, r)) in chunk.iter().zip(res.iter()).enumerate() {
+                                if let c02::prog::SiteOutcome::Fail(sig, _) = r {
+                                    let full = format!("{}{sig}", c02::prog::Runner::sig_prefix(site));
+                                    if !s.known().is_known("C02", &full) && shrunk.is_empty() {
+                                        shrunk.push((b * per + i, runner.shrink(site, sig)));
+                                    }
+                                }
+                            }
+                        }
+                        Err(e) => s.inconclusive(e),
+                    }
+                }
+                for (i, small) in shrunk {
+                    sites[i] = small;
+                }
+            }
+            s.manual("macro-sites", sites, |site, cx| runner.check(site, cx));
+            for p in runner.problems.borrow().iter() {
+                s.inconclusive(p.clone());
+            }
+            for (k, v) in runner.stats.borrow().iter() {
+                s.extra(&format!("macro_sites_{k}"), vcore::serde_json::json!(v));
+            }
         },
     )
 }
